@@ -62,6 +62,7 @@ type Frame struct {
 	panicked []*State
 	silent   bool
 	cellFns  map[*ssa.Alloc]*FuncVal
+	fieldStored map[string]bool
 }
 
 func (e *Engine) newFrame(fn *ssa.Function, parent *Frame) *Frame {
@@ -1015,6 +1016,20 @@ func (f *Frame) execUnOp(in *ssa.UnOp, st *State) {
 			}
 		}
 		e.guardCheck(f, st, l, false, in.Pos())
+		// repeated loads of a pointer-like field that this function never assigns yield the same term (stable identity
+		// for lock keys and guarded-by bases even though the heap version changed in between)
+		if key, ok := f.stableFieldKey(in, l); ok {
+			if t, seen := e.stableLoads[key]; seen {
+				v := Val{T: in.Type(), S: t}
+				f.vals[in] = v
+				e.assumeTyping(st, v)
+				return
+			}
+			v := f.defval(in, e.load(st, l))
+			e.stableLoads[key] = v.S
+			e.assumeTyping(st, v)
+			return
+		}
 		v := f.defval(in, e.load(st, l))
 		e.assumeTyping(st, v)
 		if l.Kind == LGlobal {
@@ -1481,6 +1496,10 @@ func (f *Frame) execTypeAssert(in *ssa.TypeAssert, st *State) {
 	if _, isIface := at.Underlying().(*types.Interface); isIface {
 		// interface-to-interface: membership of the dynamic type in the interface's method set
 		okT := e.implementsTerm(x.S, at)
+		if x.T != nil && types.AssignableTo(x.T, at) {
+			// the static type already implements the target: the assertion only fails for a nil interface value
+			okT = sNot(sEq(x.S, "iface.nil"))
+		}
 		if in.CommaOk {
 			f.set(in, Val{T: in.Type(), Tuple: []Val{{T: at, S: e.define("ta", "Iface", sIte(okT, x.S, "iface.nil"))}, {T: types.Typ[types.Bool], S: okT}}})
 		} else {
@@ -1540,4 +1559,40 @@ func (e *Engine) usesRunes() bool {
 		}
 	}
 	return e.runesFlag == 2
+}
+
+// stableFieldKey: the load reads a pointer/map/chan field of a heap object, and no instruction of this function stores to
+// that field (of any object of the struct type).
+func (f *Frame) stableFieldKey(in *ssa.UnOp, l *Loc) (string, bool) {
+	if l.Kind != LHeap || len(l.Path) != 1 || l.Path[0].Field < 0 {
+		return "", false
+	}
+	switch in.Type().Underlying().(type) {
+	case *types.Pointer, *types.Map, *types.Chan:
+	default:
+		return "", false
+	}
+	fa, ok := in.X.(*ssa.FieldAddr)
+	if !ok {
+		return "", false
+	}
+	stt := fa.X.Type().Underlying().(*types.Pointer).Elem()
+	key := types.TypeString(stt, nil) + "#" + fmt.Sprint(fa.Field)
+	if f.fieldStored == nil {
+		f.fieldStored = map[string]bool{}
+		for _, b := range f.fn.Blocks {
+			for _, instr := range b.Instrs {
+				if st, ok := instr.(*ssa.Store); ok {
+					if a, ok := st.Addr.(*ssa.FieldAddr); ok {
+						t := a.X.Type().Underlying().(*types.Pointer).Elem()
+						f.fieldStored[types.TypeString(t, nil)+"#"+fmt.Sprint(a.Field)] = true
+					}
+				}
+			}
+		}
+	}
+	if f.fieldStored[key] {
+		return "", false
+	}
+	return f.prefix + "|" + l.Base + "|" + key, true
 }
